@@ -57,6 +57,12 @@ def stages(tier, seed, bins):
             c["kernel"] = rnd.choice(["linear", "rbf", "poly"]) if em == "dense" else "linear"
             c["gamma"] = rnd.choice([0.05, 0.5])
         cases.append(c)
+    # sizes beyond any "small problem" switch an implementation may have (size-gated code paths, e.g. `if (N > 1000)`)
+    for N in ([1100] if tier != "thorough" else [1001, 1100, 1500, 2000]):
+        cases.append(base(rnd, mode="mds", method="mds", N=N, D=5, data="flat", q=3, td=3, em=rnd.choice(["dense", "randomized"]), dist="l2", timeout=1200,
+                          ticks=0))
+        cases.append(base(rnd, mode="mds", method="kpca", N=N, D=4, data="gauss", td=2, em="dense", kernel=rnd.choice(["linear", "rbf"]), gamma=0.05,
+                          timeout=1200, ticks=0))
     return [dict(name="mds", exe=bins["spectral"], cases=finish(cases, "m"), timeout=300)]
 
 
